@@ -19,6 +19,10 @@ def _run_parser(prog, b):
     return I, I.run(b, [ref(INPUT)], init)
 
 
+CONVERSION_ERRORS = {"BadHeader", "MissingResponseVersion", "UnsupportedVersion", "ResponseMissingStatus", "ResponseInvalidStatus",
+                     "RequestMissingMethod", "RequestInvalidMethod", "RequestMissingPath", "RequestInvalidPath", "Http"}
+
+
 def _classes(st):
     """httparse verdict class on this path"""
     parse = None
@@ -95,6 +99,12 @@ def _analyse(ctx, R, name, partial_parser=False, request=False):
                 bad.append("consumed count %r is not the tokeniser's Complete(n)" % (n,))
         if cls == "complete" and not partial_parser and rs == "Ok(None)":
             bad.append("a complete head yields need-more")
+        if cls in ("complete", "ok?") and rs.startswith("Err("):
+            # a head the tokeniser accepted is refused only because one of its pieces does not convert (version digit,
+            # status / method token, a field the http types reject): no other judgement belongs in the standalone parser
+            kind = rs[4:].split("(")[0].rstrip(")")
+            if kind not in CONVERSION_ERRORS:
+                bad.append("a head the tokeniser accepted is refused with %s (not a conversion failure of one of its pieces)" % kind)
         if cls == "?":
             # an answer that was not derived from the tokeniser's verdict on the offered input (pre-filter, length
             # test, remembered scan): need-more / errors / messages must all come from the parse
